@@ -491,5 +491,12 @@ func main() {
 
 	w.WriteString("end Gv.Gen\n")
 	writeIfChanged(filepath.Join(out, "Tables.lean"), w.String())
+	emitRngTab(out)
+
+	// T2: regenerated straight-line numeric code (numeric.go + one table file per property)
+	emitNumericModels(repo, out)
+
+	// T3: structural concurrency facts (facts.go)
+	emitFacts(repo, out)
 	emitFmtFacts(repo, out)
 }
